@@ -458,6 +458,7 @@ func RunC03(c *Ctx, r *Report) {
 	c.encodeTotality(r, prefix)
 	c.akaRules(r, prefix, "roundtrip")
 	c.akaPaddingRule(r, prefix)
+	c.elementFreshRule(r, prefix+"decode.element-fresh")
 	c.encodeOwnHeaderRule(r, prefix+"encode-own-header")
 }
 
